@@ -238,9 +238,9 @@ PROPS['C03'] = dict(
                'field, never a panic. That pass 2 passes the address of the item being emitted and sets pc to it is the call-site '
                'obligation of unit PASS2 (C02).',
     level_note='label values and the address passed to process() are C02 (unit PASS2); grammar and expression parsing assumed',
-    technique='Kani contract harnesses on the extracted relative-branch arms of process against the ISA oracle',
-    verus=['encv'],
-    kani=[dict(slice='enc', harnesses=_enc_harnesses(_is_rel_harness), cex=_enc_cex)],
+    technique='Kani contract harnesses on the extracted relative-branch arms of process against the ISA oracle + Verus fold oracle of pass 2 (pc)',
+    verus=['encv', 'pass2'],
+    kani=[dict(slice='enc', harnesses=_enc_harnesses(_is_rel_harness), cex=_enc_cex, also_for=['C03'])],
     cex_replay=_enc_witness_from_cex,
     witnesses=witnesses_enc(only_rel=True),
     functions=['instruction::process (Rjmp|Rcall and Br arms)', 'BranchT::number', 'Expr::get_bit_index'],
@@ -437,7 +437,8 @@ def witnesses_c12(tier, seed):
                               ('ram', '.dseg\n.byte %d\n' % cap['ram'], '.dseg\n.byte %d\n' % (cap['ram'] + 1))):
             jobs.append('build\n.device %s\n%s' % (n, at)); meta.append((n, mem, 'at capacity', 'ok', cap))
             jobs.append('build\n.device %s\n%s' % (n, over)); meta.append((n, mem, 'one above', 'err', cap))
-    extra = [('unknown_device', 'build\n.device ATnothing\nnop\n', 'err'), ('second_device', 'build\n.device ATmega8\n.device ATmega16\nnop\n', 'err'),
+    extra = [('unknown_device', 'build\n.device ATnothing\nnop\n', 'err'), ('second_device', 'build\n.device ATmega8\n.device ATmega16\nnop\n', 'err'), ('second_device_same_row', 'build\n.device ATtiny25\n.device ATtiny2313\nnop\n', 'err'),
+             ('same_device_twice', 'build\n.device ATmega8\n.device ATmega8\nnop\n', 'err'),
              ('default_sizes', 'build\nnop\n', 'ok'), ('ram_filling_extent', 'build\n.device ATmega48\n.dseg\n.byte 10\n.org 0x120\n.byte 3\n', 'ok')]
     jobs += [e[1] for e in extra]
     res = replay.run_jobs(jobs, timeout_per_job=30)
@@ -464,10 +465,10 @@ PROPS['C12'] = dict(
                'ram_filling <= ram_size of the context\'s device (no overflow, no truncation), reported sizes are the device\'s; pass 1 '
                'stops at the same capacities and ram_filling = end of data - RAM start (unit PASS1); 246 generated obligations: every table '
                'row is in range and equals each figure its shipped part file declares; (Kani) Device::new defaults.',
-    level_note='the `.device` arm of Directive::parse (lookup, single-selection rule) is bound by witnesses only unless unit DIR is claimed; '
+    level_note='the `.device` arm of Directive::parse (lookup, single-selection rule, frame) is clause #device of unit DIR; '
                '`.byte <expression>` silently reserving nothing is pinned by the test suite (known finding)',
     technique='Verus contract on the extracted limit check + generated table/part-file obligations + Kani harness for Device::new',
-    verus=['build', 'devtab', 'pass1'],
+    verus=['build', 'devtab', 'pass1', 'dir'],
     kani=[dict(slice='dev', harnesses=lambda tier: [h for h in _dev_harnesses(tier) if h[0] == 'dev_new'])],
     witnesses=witnesses_c12,
     functions=['builder::build_from_parsed', 'builder::pass1::{build_pass_1, pass_1_internal, next_address}', 'Device::new', 'DEVICES rows (generated)'],
@@ -544,4 +545,207 @@ PROPS['C10'] = dict(
                  'label() of the grammar lower-cases label names (set_label stores the name as given); Directive::Equ stores at parse time',
                  'trait Context has a single implementor: default methods verified as inherent methods (R3)'],
     bounded=['16 fixed symbol programs through build_str (letter case, forward references, redefinition, deletion, duplication)'],
+)
+
+
+# ------------------------------------------------------------------------------------------------ C08
+def witnesses_c08(tier, seed):
+    import cond_sem
+    ws = cond_sem.witnesses(150 if tier == 'quick' else 1500, seed or 4)
+    jobs = []
+    for src, img, kept in ws:
+        jobs.append('build\n' + src)
+        jobs.append('build\n' + kept)
+    res = replay.run_jobs(jobs)
+    out = []
+    for i, (src, img, kept) in enumerate(ws):
+        r, rk = res[2 * i], res[2 * i + 1]
+        ok = r.get('status') == 'ok' and r.get('code') == img.hex() and rk.get('status') == 'ok' and rk.get('code') == r.get('code')
+        out.append(WitnessResult('cond:%d' % i, 'build\n' + src, ok, dict(full=dict((k, r.get(k)) for k in ('status', 'code', 'err')), deleted=dict((k, rk.get(k)) for k in ('status', 'code', 'err'))),
+                                 dict(code=img.hex(), note='same image as the program with the unselected lines deleted'), 'cond/'))
+    return out
+
+
+PROPS['C08'] = dict(
+    level_text='Proof (Verus, unbounded): parser::skip verbatim equals a nesting oracle over classified lines (first depth-0 .elif/.else/.endif '
+               'for a branch that is not taken, the matching .endif for the rest of a block, unparsable lines ignored, cursor advanced exactly '
+               'that far, no effect on any state); parser::parse_iter verbatim equals a fold in which only the lines skip() selects are '
+               'dispatched and an .elif met while assembling skips every remaining branch; the conditional arms of Directive::parse '
+               '(.if/.elif by the value of the condition, .ifdef/.ifndef by the define table, .else -> skip all, .endif) change no state.',
+    level_note='what the PEG grammar classifies a line as (parsed()) is uninterpreted; the relational statement "identical to the program with the '
+               'unselected lines deleted" is a meta-theorem over the fold and is only exercised by generated witnesses',
+    technique='Verus loop invariants on the extracted skip/parse_iter against recursive nesting and driver oracles + contract on Directive::parse arms',
+    verus=['cond', 'dir'],
+    witnesses=witnesses_c08,
+    functions=['parser::skip', 'parser::parse_iter', 'directive::Directive::parse (If/ElIf/IfDef/IfNDef/Else/Endif/Define arms)'],
+    explanation='branch_end/block_end/skip_ret/skip_pos and drive/line_step in contracts/cond.vspec are the oracle; dir.vspec carries the arms.',
+    assumptions=['R8: the line iterator is an abstract cursor over a ghost sequence of (number, text)', 'R9: ParseContext state behind Rc/RefCell as one ghost record',
+                 'document::line (PEG grammar) is uninterpreted: a line carries the directive the grammar says it carries',
+                 'Directive::parse appears in COND as an uninterpreted state transformer; its conditional arms are proved in DIR'],
+    trusted=['spec/cond_sem.py (witness generator and reference interpreter)'],
+    bounded=['150 (quick) / 1500 (thorough) generated nested conditional programs, each built in full and with the unselected lines deleted'],
+)
+
+
+# ------------------------------------------------------------------------------------------------ C15 / C16
+def witnesses_c15(tier, seed):
+    base = ['nop', 'ldi r16, 1', 'lbl: nop', '.db 1, 2', '.set v = 1', '.if 1', 'nop', '.endif', '.dw lbl', 'rjmp lbl']
+    faults = [('syntax', 'this is ((( not asm'), ('unknown_mnemonic_or_macro', 'frobnicate r1'), ('operand_kind', 'ldi 5, r16'),
+              ('operand_range', 'ldi r16, 300'), ('low_register', 'ldi r3, 1'), ('undefined_in_instruction', 'ldi r16, nosuch'),
+              ('undefined_in_data', '.dw nosuch'), ('undefined_in_set', '.set w = nosuch'), ('undefined_in_if', '.if nosuch\n.endif'),
+              ('duplicate_label', 'lbl: nop'), ('branch_out_of_range', 'breq 5000'), ('string_in_dw', '.dw "x"'), ('error_directive', '.error "stop"'),
+              ('byte_two_operands', '.byte 1, 2'), ('unknown_device', '.device ATnope')]
+    jobs, meta = [], []
+    for name, text in faults:
+        for pos in ([0, 3, len(base)] if tier == 'quick' else range(len(base) + 1)):
+            if name == 'duplicate_label' and pos <= 2:
+                continue
+            lines = base[:pos] + text.split('\n') + base[pos:]
+            # keep the .if/.endif pair of the base balanced around the insertion
+            jobs.append('build\n' + '\n'.join(lines) + '\n')
+            meta.append((name, pos + 1))
+    msgs = 'nop\n.message "one"\n.if 0\n.message "hidden"\n.error "hidden too"\n.else\n.warning "two"\n.endif\nnop\n.message "three"\n'
+    jobs.append('build\n' + msgs)
+    res = replay.run_jobs(jobs)
+    out = []
+    for (name, line_no), job, r in zip(meta, jobs, res):
+        ok = r.get('status') == 'err' and re.search(r'line: %d\b' % line_no, r.get('err', '')) is not None
+        out.append(WitnessResult('fault:%s@line%d' % (name, line_no), job, ok, dict((k, r.get(k)) for k in ('status', 'err')),
+                                 'Err whose text names line %d' % line_no, 'errors/'))
+    r = res[-1]
+    want = ['info: one in line: 2', 'warning: two in line: 7', 'info: three in line: 10']
+    ok = r.get('status') == 'ok' and r.get('messages') == want and r.get('code') == '00000000'
+    out.append(WitnessResult('messages_in_order', jobs[-1], ok, dict((k, r.get(k)) for k in ('status', 'messages', 'code', 'err')), dict(messages=want, code='00000000'), 'errors/'))
+    return out
+
+
+PROPS['C15'] = dict(
+    level_text='Proof (Verus, unbounded), through rule R1 which keeps whether an error carries the current CodePoint: every error raised for an '
+               'item by pass 1 and pass 2 carries that item\'s line (#err_line; errors coming up from process/GetData/Expr::run carry none '
+               '(#noloc) and are wrapped with the line by the caller); every error Directive::parse raises itself carries its point; a line '
+               'the grammar rejects fails with its own number (parse_iter fold); .message/.warning append exactly one entry and touch '
+               'nothing else, .error additionally fails, none of them is dispatched from an unselected branch (C08 fold).',
+    level_note='the rendering "line: N" (fmt::Display) and the message text are dropped by extraction: bound by single-fault witnesses; errors raised '
+               'inside pass 0 (macro expansion) and inside an included file are not under contract',
+    technique='Verus postconditions on error locations over the extracted passes / Directive::parse / parse_iter (rule R1 keeps the location)',
+    verus=['pass1', 'pass2', 'dir', 'cond', 'data', 'encv'],
+    witnesses=witnesses_c15,
+    functions=['pass_1_internal', 'pass_2_internal', 'build_pass_2', 'Directive::parse', 'parse_iter', 'process / GetData (no location)'],
+    explanation='Error{loc} in contracts/common.vinc is the abstract view of failure::Error; R1 maps each bail! to verr_at(point) or verr_none().',
+    assumptions=['R1 decides "carries the location" syntactically: an argument of bail! named point/line or a CodePoint literal',
+                 'Display for CodePoint prints "line: N": witnesses only'],
+    bounded=['single-fault programs: 15 fault kinds x 3 (quick) / 11 (thorough) line positions; one message-order program'],
+)
+
+
+def witnesses_c16(tier, seed):
+    import isa
+    rnd = random.Random(seed or 13)
+    ops = ['', 'r0', 'r31', 'r32', 'R16', 'X', 'X+', '-Y', 'Z+63', 'Z+64', 'Y+', '0', '-1', '255', '256', '65536', '4194304',
+           '9223372036854775807', '99999999999999999999', '0x', '$FFFFFFFFFFFFFFFFF', '1<<64', '1/0', '-(-9223372036854775807-1)', 'nosuch',
+           '"str"', "'c'", '(', ')', ',', '@0', 'low(', 'exp2(99)', 'r1 r2', ';', '.', '#', 'pc', 'PC-1']
+    heads = list(isa.MNEMONICS) + ['.' + d for d in ['byte', 'cseg', 'csegsize', 'db', 'def', 'device', 'dseg', 'dw', 'endm', 'endmacro', 'equ', 'eseg',
+                                                      'exit', 'include', 'includepath', 'list', 'listmac', 'macro', 'nolist', 'org', 'set', 'define',
+                                                      'else', 'elif', 'endif', 'error', 'if', 'ifdef', 'ifndef', 'message', 'dd', 'dq', 'undef',
+                                                      'warning', 'overlap', 'nooverlap', 'pragma', 'bogus']] + ['lbl:', 'macrocall', '#define']
+    jobs = []
+    for h in heads:
+        jobs.append('build\n%s\n' % h)
+        for a in ops[1:]:
+            jobs.append('build\n%s %s\n' % (h, a))
+        pairs = [(a, b) for a in ops[1:] for b in ops[1:]]
+        if tier == 'quick':
+            pairs = rnd.sample(pairs, 40)
+        for a, b in pairs:
+            jobs.append('build\n%s %s, %s\n' % (h, a, b))
+        for _ in range(5 if tier == 'quick' else 60):
+            jobs.append('build\n%s %s, %s, %s\n' % (h, rnd.choice(ops), rnd.choice(ops), rnd.choice(ops)))
+    multi = ['.equ a = b\n.equ b = a\n ldi r16, a\n', '.macro m\n m\n.endm\n m\n', '.macro a\n b\n.endm\n.macro b\n a\n.endm\n a\n', '.if 1\n' * 200,
+             '.endif\n.else\n.elif 1\n.endm\n', '.macro x\n', '.dseg\n.byte 999999999999\n', '.org 0x7fffffff\n nop\n', '.eseg\n.org 4294967295\n.db 1\n',
+             '.device ATtiny10\n.dseg\n.byte 33\n', '(' * 300 + '\n', '.db ' + ','.join(['1'] * 5000) + '\n', '.include "/nonexistent/file.inc"\n',
+             '.def a = r1\n.def b = a\n ldi b, 1\n', '.set s = s + 1\n', 'l: .dw l, l+1, l-1, l*l, l<<l\n']
+    jobs += ['build\n' + m for m in multi]
+    res = replay.run_jobs(jobs, timeout_per_job=10)
+    out = []
+    bad = 0
+    for job, r in zip(jobs, res):
+        ok = r.get('status') in ('ok', 'err')
+        if not ok or len(out) < 3:
+            out.append(WitnessResult('hostile:' + job[6:60].replace('\n', ' ; '), job, ok, dict((k, r.get(k)) for k in ('status', 'err')), 'a result or an error value', 'hostile/'))
+    # one summary witness so the count is visible
+    out.append(WitnessResult('hostile:summary', '%d single-line and %d multi-line programs' % (len(jobs) - len(multi), len(multi)), True, 'all returned a value', 'no panic, crash or hang'))
+    return out
+
+
+PROPS['C16'] = dict(
+    level_text='Proof, for every function under contract (15 units; see DESIGN.md section 11), with no precondition on user-controlled values: Verus '
+               'discharges every index, overflow, shift-amount, division, unwrap obligation and a decreases clause for every loop and recursion '
+               '(Expr evaluation with its nesting budget, skip, parse_iter, pass 1/2 loops, the HEX writer); Kani checks the same panics in '
+               'each of its harnesses; pass 1 stops at the device capacity so that pass 2 allocates at most the fragment lengths it proves. '
+               'The claim is exactly: from the parsed Document onward, minus pass 0 (macro expansion), file inclusion and main.rs.',
+    level_note='NOT under contract (bounded hostile-input witnesses only): action code inside the PEG grammar, pass0 (macro_expand / pass0_internal), '
+               'parse_file_internal, utility.rs, main.rs; stack depth of the generated recursive-descent parser on deeply nested parentheses',
+    technique='panic-freedom and termination obligations generated by Verus/Kani for every extracted function (no preconditions on inputs)',
+    verus=['encv', 'expr', 'data', 'pass1', 'pass2', 'build', 'hex', 'ctxu', 'dir', 'cond'],
+    kani=[dict(slice='conv', harnesses=lambda tier: _conv_harnesses(tier)), dict(slice='dev', harnesses=lambda tier: _dev_harnesses(tier)),
+          dict(slice='exprstep', harnesses=lambda tier: _step_harnesses(tier)), dict(slice='enc', harnesses=_enc_harnesses(), cex=_enc_cex)],
+    cex_replay=_enc_witness_from_cex,
+    only_untagged=True,
+    witnesses=witnesses_c16,
+    functions=['all functions of DESIGN.md section 11'],
+    explanation='Only untagged obligations (panic, call-site preconditions, decreases, invariants) and clauses tagged C16 count for this property.',
+    assumptions=['preconditions that remain are structural facts proved by the producer (seg_wf2 from pass 1, wf of the parse context, device rows small)',
+                 'machine memory bound mem_bound; slice length <= isize::MAX; usize = 64 bit'],
+    bounded=['hostile-input witnesses: every mnemonic and directive with 0, 1 (38 texts), 2 (40 sampled / all 1444 pairs) and 3 sampled operands from a '
+             'dictionary of valid, boundary and hostile texts, plus 16 multi-line programs (cyclic .equ, self-calling macros, unbalanced blocks, '
+             'huge reservations, deep parentheses), run natively with crash/timeout detection'],
+    not_decided=['grammar action code, pass 0, file inclusion, CLI: witnesses only'],
+)
+
+
+# ------------------------------------------------------------------------------------------------ C09
+def witnesses_c09(tier, seed):
+    import macro_sem
+    ws = macro_sem.witnesses(150 if tier == 'quick' else 1500, seed or 2)
+    jobs = []
+    for a, b in ws:
+        jobs += ['build\n' + a, 'build\n' + b]
+    fixed = [('undefined_macro', 'build\n nosuchmacro r1, 2\n', 'err'), ('missing_argument', 'build\n.macro m\n ldi @0, @1\n.endm\n m r16\n', 'err'),
+             ('self_call_bounded', 'build\n.macro m\n m\n.endm\n m\n', 'err'), ('capital_name_callable', 'build\n.macro BIG\n nop\n.endm\n big\n Big\n', 'ok')]
+    jobs += [f[1] for f in fixed]
+    res = replay.run_jobs(jobs)
+    out = []
+    for i, (a, b) in enumerate(ws):
+        r, rf = res[2 * i], res[2 * i + 1]
+        ok = r.get('status') == 'ok' and rf.get('status') == 'ok' and r['code'] == rf['code'] and r['eeprom'] == rf['eeprom'] and r['ram_filling'] == rf['ram_filling']
+        out.append(WitnessResult('macro:%d' % i, 'build\n' + a, ok, dict(with_macros=dict((k, r.get(k)) for k in ('status', 'code', 'err')), hand_expanded=dict((k, rf.get(k)) for k in ('status', 'code', 'err'))),
+                                 'same images as the hand-expanded program', 'macro/'))
+    for (name, job, want), r in zip(fixed, res[2 * len(ws):]):
+        out.append(WitnessResult(name, job, r.get('status') == want, dict((k, r.get(k)) for k in ('status', 'code', 'err')), want, 'macro/'))
+    return out
+
+
+PROPS['C09'] = dict(
+    level_text='PARTIAL. Proof (Verus, unbounded) of the parts a contract can reach: (a) pass0_internal verbatim equals a splice fold: a macro call is '
+               'replaced in place and in order by all items of every segment its expansion produced (further code segments under their own '
+               'type/address, others as they are), nested calls likewise, nesting bounded, a failing/undefined expansion fails the build; '
+               '(b) .macro stores the lower-cased name and skip() files the body under exactly that name; (c) the body is collected verbatim '
+               'up to .endm/.endmacro and the line after it is the next one assembled. The substitution itself (macro_expand: Display of the '
+               'operands, String::replace, re-parsing) is string/iterator-adapter code outside both verifiers and is a stub here.',
+    level_note='"the call behaves as the body with the arguments substituted" is therefore decided only on generated witness programs compared with '
+               'their hand expansion; claimed at proof level for (a)-(c) only',
+    technique='Verus fold oracle for pass0_internal (mutual recursion with a nesting budget) + skip/Directive::parse clauses; macro_expand is an assumed stub',
+    verus=['pass0', 'cond', 'dir'],
+    witnesses=witnesses_c09,
+    functions=['builder::pass0::pass0_internal', 'parser::skip (EndMacro mode)', 'Directive::parse (Macro arm)'],
+    explanation='p0_items/p0_segs in contracts/pass0.vspec; #macro_body in cond.vspec; #macro in dir.vspec.',
+    assumptions=['macro_expand is an external_body stub: its result and its effect on shared state are uninterpreted functions mexp/menv of '
+                 '(name, operands, macro table, state, current address); the lookup by exact key, the @n substitution and the re-parse are NOT verified',
+                 'build_pass_0 (the 20-line caller) and as_pass0_result (filter of empty segments) are read, not verified',
+                 'R17: for x in v.iter().skip(1) as an index loop'],
+    trusted=['spec/macro_sem.py (witness generator and textual hand expansion)'],
+    bounded=['150 (quick) / 1500 (thorough) generated macro programs (registers, pointer forms, expressions of every precedence with and without '
+             'parentheses as arguments; conditionals on parameters; nested calls; bodies switching segments; calls before the definition; any '
+             'letter case) built with macros and hand-expanded; 4 fixed error cases'],
+    not_decided=['argument rendering / substitution / re-parse (macro_expand): witnesses only'],
 )
